@@ -1,11 +1,11 @@
-//! C16 component pool (13 components) and the compiled subset (all permutations of every <=2 / <=3
+//! C16 component pool (16 components) and the compiled subset (all permutations of every <=2 / <=3
 //! subset as SET; in the compiled types every second pool component is OPTIONAL so that the
 //! presence-bit order is on the wire too).
 
 use crate::schema::*;
 use crate::zoo_def::ZooModule;
 
-/// 13 components, each of a distinct type so that values identify fields.
+/// 16 components, each of a distinct type so that values identify fields.
 pub fn pool() -> Vec<Comp> {
     vec![
         Comp::new("x", Ty::int_r(0, 7)).tagged(Tag::u(30)),
@@ -21,6 +21,12 @@ pub fn pool() -> Vec<Comp> {
         Comp::new("rt", Ty::r("Tst")),
         Comp::new("so", Ty::seq_of(Size::Range(0, Some(3), false), Ty::Bool)),
         Comp::new("st", Ty::set_of(Size::Range(0, Some(2), false), Ty::Bool)),
+        // an untagged extensible CHOICE whose extension alternative has the smallest tag: ordered by its ROOT alternatives
+        Comp::new("rx", Ty::r("Tchox")),
+        // a tag equal to the type's own universal tag is still an explicit tag (no automatic tagging of the list)
+        Comp::new("u2", Ty::int_r(0, 1)).tagged(Tag::u(2)),
+        // a tagged inline SEQUENCE: the tag moves to the extracted type, the component stays tagged
+        Comp::new("is", Ty::seq(vec![Comp::new("v", Ty::int_r(0, 3))])).tagged(Tag::a(5)),
     ]
 }
 
@@ -28,6 +34,7 @@ pub fn helper_defs(m: Module) -> Module {
     m.def_tagged("Tapp9", Tag::a(9), Ty::int_r(0, 3))
         .def("Tsq", Ty::seq(vec![Comp::new("z", Ty::Bool)]))
         .def("Tcho", Ty::choice(vec![Alt::new("m", Ty::Bool).tagged(Tag::c(4)), Alt::new("n", Ty::int_r(0, 7)).tagged(Tag::c(1))]))
+        .def("Tchox", Ty::Choice { alts: vec![Alt::new("m", Ty::Bool).tagged(Tag::p(1)), Alt::new("n", Ty::int_r(0, 7)).tagged(Tag::p(3)), Alt::new("o", Ty::Null).tagged(Tag::a(2))], ext_after: Some(2) })
         .def("Tst", Ty::Seq { set: true, comps: vec![Comp::new("z", Ty::Bool)], ext_after: None })
 }
 
